@@ -239,10 +239,12 @@ def run(prop, argv):
             rep.cov["phase_s"]["conformance"] = round(_t.time() - _t2, 1)
         rep.cov["traces_validated_against_impl"] = len(events)
         rep.cov["evaluations"] = len(events)
-        if prop in ("C01", "C02", "C14") and not replay_path:
+        if prop in ("C01", "C02", "C04", "C14") and not replay_path:
             # daemon mode: the same clauses with the Store's own monitors running (nothing gated), judged by DaemonObs.tla
             _t3 = _t.time()
-            dcases = corelib.daemon_cases(seed + {"C01": 1, "C02": 2, "C14": 14}[prop], 10 if tier == "quick" else 120, first_id=len(cases), faults="none")
+            # (C04: local level-0 files vanish / rot under the running daemon, auto-recovery on in two cases of three)
+            dcases = corelib.daemon_cases(seed + {"C01": 1, "C02": 2, "C04": 4, "C14": 14}[prop], 10 if tier == "quick" else 120, first_id=len(cases),
+                                          faults="none", loss=(prop == "C04"))
             corelib.daemon_run(rep, binary, wd, dcases, prop)
             rep.cov["traces_validated_against_impl"] += len(dcases)
             rep.cov["phase_s"]["daemon_mode"] = round(_t.time() - _t3, 1)
